@@ -81,7 +81,9 @@ pub async fn scenario(x: u32, link_split: bool, events: Vec<Ev>) -> Obs {
     auto.incoming_window = 2;
     auto.outgoing_window = 1000;
     auto.grant_credit = Some(100_000);
-    let peer_noi0 = 7u32;
+    // the peer's own transfer-ids start next to 2^32 in the runs whose outgoing ids do: the next-incoming-id the
+    // library reports then has to wrap with the frames it receives
+    let peer_noi0 = if x >= u32::MAX - 8 { u32::MAX - 1 } else { 7u32 };
     auto.next_outgoing_id = peer_noi0;
     let w0 = auto.incoming_window;
     let mut c = match scen::open_client(auto, 512).await {
